@@ -6,6 +6,7 @@ package main
 import (
 	"fmt"
 	"go/types"
+	"strings"
 )
 
 type vfile struct {
@@ -153,3 +154,98 @@ func (in *Interp) ioEOF() value {
 }
 
 var _ = fmt.Sprintf
+
+// gcfg.ReadInto(config, reader): contract stub. The reader is drained through its own Read
+// method; the text is interpreted as the documented INI subset ([Section] headers,
+// `key = value` lines, ';'/'#' comments) and assigned to the fields of the Options sections
+// Global (DbFileName, LogFileName, DateFormat) and Resolver (MaxDepth). Anything else is an error.
+func init() {
+	externals["gopkg.in/gcfg.v1.ReadInto"] = func(in *Interp, fr *frame, args []value) value {
+		cfgItf := args[0].(iface)
+		optPtr, ok := cfgItf.v.(*value)
+		if !ok || optPtr == nil {
+			panic(unsupported{"gcfg.ReadInto target"})
+		}
+		rd := args[1].(iface)
+		readM := in.prog.LookupMethod(rd.t, nil, "Read")
+		var text []byte
+		for guard := 0; guard < 1000; guard++ {
+			buf := make([]value, 512)
+			z := in.tb.BV(SBV8, 0)
+			for i := range buf {
+				buf[i] = z
+			}
+			res := in.call(fr, 0, readM, []value{rd.v, buf}).(tuple)
+			n := in.toInt(res[0], "read count")
+			for i := 0; i < n; i++ {
+				b := buf[i].(*Term)
+				if !b.IsConst() {
+					panic(unsupported{"gcfg.ReadInto on symbolic configuration text"})
+				}
+				text = append(text, byte(b.val))
+			}
+			if e, ok := res[1].(iface); ok && e.t != nil {
+				break
+			}
+		}
+		opts := (*optPtr).(structure)
+		st := mustDeref(cfgItf.t).Underlying().(*types.Struct)
+		secOf := func(tag string) (structure, *types.Struct) {
+			for i := 0; i < st.NumFields(); i++ {
+				if strings.Contains(st.Tag(i), `gcfg:"`+tag+`"`) {
+					return opts[i].(structure), st.Field(i).Type().Underlying().(*types.Struct)
+				}
+			}
+			return nil, nil
+		}
+		section := ""
+		for _, line := range strings.Split(string(text), "\n") {
+			line = strings.TrimSpace(line)
+			if line == "" || line[0] == ';' || line[0] == '#' {
+				continue
+			}
+			if line[0] == '[' && line[len(line)-1] == ']' {
+				section = strings.TrimSpace(line[1 : len(line)-1])
+				continue
+			}
+			eq := strings.IndexByte(line, '=')
+			if eq < 0 {
+				return in.newError("gcfg: invalid line")
+			}
+			key, val := strings.TrimSpace(line[:eq]), strings.TrimSpace(line[eq+1:])
+			if len(val) >= 2 && val[0] == '"' && val[len(val)-1] == '"' {
+				val = val[1 : len(val)-1]
+			}
+			sec, sst := secOf(section)
+			if sec == nil {
+				return in.newError("gcfg: invalid section " + section)
+			}
+			found := false
+			for i := 0; i < sst.NumFields(); i++ {
+				if strings.EqualFold(sst.Field(i).Name(), key) {
+					found = true
+					switch b := sst.Field(i).Type().Underlying().(type) {
+					case *types.Basic:
+						if b.Info()&types.IsString != 0 {
+							sec[i] = val
+						} else if b.Info()&types.IsInteger != 0 {
+							var n int64
+							if _, err := fmt.Sscan(val, &n); err != nil {
+								return in.newError("gcfg: invalid integer")
+							}
+							sec[i] = in.intConst(n)
+						} else {
+							return in.newError("gcfg: unsupported field type")
+						}
+					default:
+						return in.newError("gcfg: unsupported field type")
+					}
+				}
+			}
+			if !found {
+				return in.newError("gcfg: invalid variable " + key)
+			}
+		}
+		return nilError()
+	}
+}
